@@ -133,3 +133,100 @@ def alias_scenarios(repo):
     a = res.attrs.get("_ast") if isinstance(res, Obj) else None
     out.append(("alias() without a name keeps the table name", isinstance(a, Obj) and a.attrs.get("name") == "tbl", f"name = {a.attrs.get('name') if isinstance(a, Obj) else None!r}"))
     return out
+
+
+def check_subquery_scenarios(repo):
+    """pipe/pipeable.py check_subquery interpreted on stub tables: a pipeline `leaf >> alias >> mutate` receives a new verb;
+    the caches answer with programmed reasons.  -> list of (description, ok, detail)"""
+    from .exprsim import LEAF_SRC, ExprWorld
+    from .interp import Native
+    from .program import Program
+    import ast as _ast
+
+    p = Program(repo, primary="pipe.pipeable")
+    venv = p.env_of(repo.mod("tree.verbs"))
+    venv["_fresh_uuid"] = Native(p.fresh_uuid, "uuid1")
+    venv["StubLeaf"] = p.make_class(_ast.parse(LEAF_SRC).body[0], venv)
+    f = p.env_of(repo.mod("pipe.pipeable"))["check_subquery"]
+    out = []
+
+    def build(with_alias=True):
+        leaf = p.call(venv["StubLeaf"], ["t", ["a"]])
+        ua = leaf.attrs["cols"]["a"].attrs["_uuid"]
+        node = leaf
+        alias = None
+        if with_alias:
+            alias = p.new("tree.verbs", "Alias", child=leaf, name="t", uuid_map=None)
+            node = alias
+        ref = p.new("tree.col_expr", "Col", name="a", _ast=leaf, _uuid=ua, _dtype=None, _ftype=None)
+        mid = p.new("tree.verbs", "Mutate", child=node, name="t", names=["m"], values=[ref], uuids=["um"])
+        top = p.new("tree.verbs", "Filter", child=mid, name="t", predicates=[p.new("tree.col_expr", "Col", name="m", _ast=mid, _uuid="um", _dtype=None, _ftype=None)])
+        return leaf, alias, mid, top
+
+    def table(node, reasons):
+        """stub table whose cache answers requires_subquery with the given reasons in turn"""
+        calls = []
+
+        def rs(n, _r=list(reasons)):
+            calls.append(n)
+            return _r.pop(0) if _r else None
+
+        cache = p.new("pipe.cache", "Cache", cols={}, name_to_uuid={}, uuid_to_name={})
+        cache.attrs["requires_subquery"] = Native(rs, "requires_subquery")
+        t = p.new("pipe.table", "Table", _ast=node, _cache=cache)
+        return t, calls
+
+    for label, first, second, with_alias, want in (
+        ("the verb fits", None, None, True, "unchanged"),
+        ("a subquery is needed and the alias resolves it", "limit", None, True, "marker"),
+        ("the same reason remains after the subquery", "limit", "limit", True, "SubqueryError"),
+        ("another reason remains after the subquery", "limit", "window", True, "SubqueryError"),
+        ("a subquery is needed and there is no alias", "limit", None, False, "SubqueryError"),
+    ):
+        leaf, alias, mid, top = build(with_alias)
+        child_tbl, _c1 = table(mid, [first])
+        new_tbl, _ = table(top, [])
+        test_calls = []
+
+        def make_test_table(node, _second=second, _tc=test_calls):
+            t, calls = table(node, [_second])
+            _tc.append((t, calls))
+            return t
+
+        p.import_overrides["Table"] = Native(make_test_table, "Table")
+        before = ExprWorld.children_struct(top)
+        try:
+            r = ("value", p.call(f, [new_tbl, child_tbl]))
+        except PyRaise as e:
+            r = ("raise", e.name)
+        finally:
+            p.import_overrides.pop("Table", None)
+        untouched = ExprWorld.children_struct(top) == before
+        if want == "SubqueryError":
+            out.append((label, r == ("raise", "SubqueryError") and untouched, f"check_subquery ({label}): {r[0]} {r[1] if r[0] == 'raise' else ''}; documented: SubqueryError (input tree untouched: {untouched})"))
+            continue
+        if r[0] != "value" or not isinstance(r[1], tuple) or len(r[1]) != 2:
+            out.append((label, False, f"check_subquery ({label}) gives {r}"))
+            continue
+        nt, ct = r[1]
+        if want == "unchanged":
+            out.append((label, nt is new_tbl and ct is child_tbl and untouched, f"check_subquery ({label}) returns other tables than its inputs or modifies them"))
+            continue
+        # marker case: a rebuilt chain  Filter' -> Mutate' -> SubqueryMarker -> Alias (original)
+        n0 = nt.attrs.get("_ast") if isinstance(nt, Obj) else None
+        chain = []
+        n = n0
+        while isinstance(n, Obj) and n.cls.name != "StubLeaf" and len(chain) < 8:
+            chain.append(n)
+            n = n.attrs.get("child")
+        names = [x.cls.name for x in chain]
+        fresh = all(x is not y for x in chain[:2] for y in (top, mid))
+        ok = (
+            names == ["Filter", "Mutate", "SubqueryMarker", "Alias"] and chain[3] is alias and fresh and untouched and nt is not new_tbl
+            and new_tbl.attrs["_ast"] is top and len(test_calls) == 1 and test_calls[0][1] and test_calls[0][1][0] is n0
+            and ct is test_calls[0][0]
+        )  # fmt: skip
+        out.append((label, ok,
+                    f"check_subquery ({label}): the returned table's tree is {names} (documented Filter' >> Mutate' >> SubqueryMarker >> the original Alias), "
+                    f"copies fresh: {fresh}, input tree untouched: {untouched}, re-test on the rebuilt verb: {bool(test_calls and test_calls[0][1])}"))  # fmt: skip
+    return out
